@@ -215,8 +215,9 @@ def judge_diagram_eval(obj, ev) -> None:
     else:
         try:
             text = open(file).read()
-            if "@startuml" not in text or "@enduml" not in text:
-                reason = "no start/end tags"
+            i = text.find("@startuml")
+            if i < 0 or text.find("@enduml", i) < 0:
+                reason = "no start/end tags"  # incl. an end tag that only occurs BEFORE the start tag
         except OSError:
             reason = "unreadable file"
     if reason is None and ev.truth is not None:
